@@ -5,3 +5,5 @@
 
 pub mod common;
 mod c19;
+mod gen_c02;
+mod c02;
